@@ -27,6 +27,7 @@ import CdsVerif.Algo.RCU.Model
 import CdsVerif.Algo.Michael.Model
 import CdsVerif.Algo.Michael.Snap
 import CdsVerif.Algo.SplitList.Model
+import CdsVerif.Algo.SplitList.Snap
 import CdsVerif.Algo.Feldman.Model
 import CdsVerif.Algo.SkipList.Abs
 import CdsVerif.Algo.Lazy.Model
@@ -249,6 +250,9 @@ def main (args : List String) : IO UInt32 := do
       (fun loc => loc == "cnt2" || loc == "maxc" || loc == "items" || loc == "acnt" ||
         ((loc.startsWith "n" || loc.startsWith "d" || loc.startsWith "b") && loc.length > 1 && (loc.drop 1).all Char.isDigit))
       (fun _ => true) none
+      -- tie S on the machine side: the table-based dump of the final machine state (Props/C18Reach.lean:
+      -- C18_splitlist_quiescent_table_dump) against the `SNAP split …` line of the client
+      (some (fun r => CdsVerif.Algo.SplitList.snapTokens r.s))
     return 0
   | ["replay", "skiplist"] =>
     -- harness variant `iskipset_hp_named` of the `tree` client; tower heights from the header word hts=
